@@ -45,13 +45,15 @@ var privs = []privDef{{true, true, "LI"}, {false, false, "--"}, {true, false, "L
 type ifaceDef struct {
 	Local, Internal, MakeSecret bool
 	Name                        string
+	MakeCrown                   bool
 }
 
 var ifaceDefs = []ifaceDef{
-	{true, true, false, "LI"},
-	{false, false, false, "--"},
-	{true, true, true, "LI+AlwaysMakeSecret"},
-	{true, false, false, "L-"},
+	{true, true, false, "LI", false},
+	{false, false, false, "--", false},
+	{true, true, true, "LI+AlwaysMakeSecret", false},
+	{true, false, false, "L-", false},
+	{true, true, true, "LI+AlwaysMakeSecret+AlwaysMakeCrownjewel", true},
 }
 
 type qDef struct {
@@ -75,7 +77,7 @@ const (
 
 var phaseNames = map[int]string{1: "preget", 2: "postget", 4: "preput", 7: "all"}
 var behNames = []string{"pass", "replace", "veto"}
-var flagNames = []string{"none", "secret", "crownjewel"}
+var flagNames = []string{"none", "secret", "crownjewel", "secret+crownjewel"}
 
 // the key under which the provider of the injected database refuses writes
 const failKey = "a/x"
@@ -157,6 +159,8 @@ type bounds struct {
 	ifaces           []int // writer/reader interfaces with the full put alphabet: index 0; others get one put each
 	allPhaseHook     bool
 	pushDeleted      bool
+	fullIfaces       []int // further interfaces that get the whole put/delete alphabet (index 0 of ifaces always does)
+	noNewHooks       bool  // family with hooks given by the seed only
 }
 
 type witness struct {
@@ -381,7 +385,7 @@ func (m *model) notify(x *expect, key string, cur entry) {
 }
 
 func flagEntry(v int, flag int) entry {
-	return entry{V: int64(v), HasData: true, Secret: flag == 1, Crown: flag == 2}
+	return entry{V: int64(v), HasData: true, Secret: flag == 1 || flag == 3, Crown: flag == 2 || flag == 3}
 }
 
 // apply advances the model by one operation and returns what the real system must show.
@@ -435,6 +439,9 @@ func (m *model) apply(o op) *expect {
 		if w.MakeSecret {
 			cur.Secret = true
 		}
+		if w.MakeCrown {
+			cur.Crown = true
+		}
 		m.putChain(x, o.Key, cur)
 	case "del":
 		w := ifaceDefs[o.W]
@@ -444,6 +451,9 @@ func (m *model) apply(o op) *expect {
 		}
 		if w.MakeSecret {
 			cur.Secret = true
+		}
+		if w.MakeCrown {
+			cur.Crown = true
 		}
 		cur.Del = true
 		m.putChain(x, o.Key, cur)
@@ -456,6 +466,9 @@ func (m *model) apply(o op) *expect {
 		}
 		if w.MakeSecret || o.Kind == "sec" {
 			cur.Secret = true
+		}
+		if w.MakeCrown {
+			cur.Crown = true
 		}
 		if o.Kind == "setv" {
 			cur.V = int64(o.V)
@@ -513,6 +526,14 @@ func (m *model) enabled(b *bounds) []op {
 	for _, k := range keys {
 		out = append(out, op{Kind: "del", W: w0, Key: k})
 	}
+	for _, w := range b.fullIfaces {
+		for _, k := range keys {
+			for f := 0; f < b.nFlag; f++ {
+				out = append(out, op{Kind: "put", W: w, Key: k, V: 1, Flag: f})
+			}
+			out = append(out, op{Kind: "del", W: w, Key: k})
+		}
+	}
 	out = append(out, op{Kind: "setv", W: w0, Key: keys[0], V: 0})
 	out = append(out, op{Kind: "sec", W: w0, Key: keys[0]})
 	if b.allPhaseHook { // thorough
@@ -556,7 +577,7 @@ func (m *model) enabled(b *bounds) []op {
 		out = append(out, op{Kind: "cancel", Ref: i})
 	}
 	// hooks
-	if len(m.hooks) < b.maxHooks {
+	if len(m.hooks) < b.maxHooks && !b.noNewHooks {
 		for q := 0; q < b.nQ; q++ {
 			for _, ph := range []int{phPrePut, phPostGet, phPreGet} {
 				for beh := 0; beh < 3; beh++ {
@@ -604,8 +625,7 @@ func snapOf(r record.Record) snap {
 	s := snap{Key: r.DatabaseKey()}
 	if m := r.Meta(); m != nil {
 		s.Del = m.IsDeleted()
-		s.Secret = !m.CheckPermission(true, false)
-		s.Crown = !m.CheckPermission(false, true)
+		s.Secret, s.Crown = record.VerifFlags(m)
 	}
 	if x, ok := r.(*rec); ok {
 		s.V, s.Tag, s.HasData = int64(x.V), x.Tag, true
@@ -753,7 +773,14 @@ func takeName() string {
 func newWorld(cfg config) (*world, error) {
 	w := &world{cfg: cfg, name: takeName()}
 	st := cfg.Backend
-	if _, err := database.Register(&database.Database{Name: w.name, Description: "c14", StorageType: st, ShadowDelete: cfg.ShadowDelete}); err != nil {
+	if st == "hashmap" {
+		// The hashmap storage ignores its location: register the database and build its
+		// controller exactly as getController does, but without creating directories
+		// (the stat/mkdir calls under the global controllers lock serialise all workers).
+		if err := database.VerifStartDatabase(&database.Database{Name: w.name, Description: "c14", StorageType: st, ShadowDelete: cfg.ShadowDelete}); err != nil {
+			return nil, err
+		}
+	} else if _, err := database.Register(&database.Database{Name: w.name, Description: "c14", StorageType: st, ShadowDelete: cfg.ShadowDelete}); err != nil {
 		return nil, err
 	}
 	if cfg.Backend == "injected" {
@@ -772,7 +799,7 @@ func newWorld(cfg config) (*world, error) {
 		w.push = push
 	}
 	for _, d := range ifaceDefs {
-		w.ifaces = append(w.ifaces, database.NewInterface(&database.Options{Local: d.Local, Internal: d.Internal, AlwaysMakeSecret: d.MakeSecret}))
+		w.ifaces = append(w.ifaces, database.NewInterface(&database.Options{Local: d.Local, Internal: d.Internal, AlwaysMakeSecret: d.MakeSecret, AlwaysMakeCrownjewel: d.MakeCrown}))
 	}
 	return w, nil
 }
@@ -808,6 +835,9 @@ func (w *world) newRec(key string, v, flag int, del bool) *rec {
 	case 1:
 		r.Meta().MakeSecret()
 	case 2:
+		r.Meta().MakeCrownJewel()
+	case 3:
+		r.Meta().MakeSecret()
 		r.Meta().MakeCrownJewel()
 	}
 	if del {
@@ -1324,9 +1354,45 @@ func seeds(cfg config) []seed {
 // ---------- main ----------
 
 type plan struct {
-	cfg   config
-	depth int
-	b     *bounds
+	cfg    config
+	depth  int
+	b      *bounds
+	family string // "" = the general exploration
+	seeds  []seed // nil = the general seeds
+}
+
+// hookOrderSeeds: a stored record and three hooks on "a/", every triple of hook kinds.
+// The histories that follow cancel one of them and then read or write: with a
+// cancel in the middle the remaining hooks must still fire in registration order.
+func hookOrderSeeds() []seed {
+	type kind struct{ ph, beh int }
+	kinds := []kind{{phPrePut, 0}, {phPrePut, 1}, {phPrePut, 2}, {phPostGet, 1}, {phPostGet, 2}, {phPreGet, 0}, {phPreGet, 2}}
+	var out []seed
+	for _, k0 := range kinds {
+		for _, k1 := range kinds {
+			for _, k2 := range kinds {
+				ops := []op{{Kind: "put", Key: "a/1", V: 1}}
+				for _, k := range []kind{k0, k1, k2} {
+					ops = append(ops, op{Kind: "hook", Q: 0, Phase: k.ph, Beh: k.beh})
+				}
+				out = append(out, seed{"stored(a/1 V=1)+" + histString(ops[1:]), ops})
+			}
+		}
+	}
+	return out
+}
+
+// matrixSeeds: one subscription per Local/Internal combination.
+func matrixSeeds() []seed {
+	var out []seed
+	for q := 0; q < 2; q++ {
+		var ops []op
+		for p := range privs {
+			ops = append(ops, op{Kind: "sub", Q: q, Priv: p})
+		}
+		out = append(out, seed{histString(ops), ops})
+	}
+	return out
 }
 
 func plans(c *vlib.Ctx) []plan {
@@ -1334,30 +1400,48 @@ func plans(c *vlib.Ctx) []plan {
 	mk := func(keys []string, nQ, nPriv, nFlag, maxSubs, maxHooks int, ifaces []int, all, pd bool) *bounds {
 		return &bounds{nQ: nQ, nPriv: nPriv, nFlag: nFlag, keys: keys, maxSubs: maxSubs, maxHooks: maxHooks, ifaces: ifaces, allPhaseHook: all, pushDeleted: pd}
 	}
+	// dedicated families (both tiers): the complete flags x privileges matrix of the
+	// delivery clause, and the order of three hooks after a cancel
+	matrix := mk([]string{"a/1"}, 1, 4, 4, 4, 0, []int{0}, false, true)
+	matrix.fullIfaces = []int{2, 4}
+	order := mk([]string{"a/1"}, 1, 1, 1, 1, 3, []int{0, 1}, false, false)
+	order.noNewHooks = true
+	fam := []plan{
+		{config{"hashmap", false}, 2, matrix, "flags x privileges matrix", matrixSeeds()},
+		{config{"hashmap", true}, 2, matrix, "flags x privileges matrix", matrixSeeds()},
+		{config{"bbolt", true}, 2, matrix, "flags x privileges matrix", matrixSeeds()},
+		{config{"injected", false}, 2, matrix, "flags x privileges matrix", matrixSeeds()},
+		{config{"hashmap", false}, 2, order, "three hooks, cancel one", hookOrderSeeds()},
+		{config{"injected", false}, 2, order, "three hooks, cancel one", hookOrderSeeds()},
+	}
 	if quick {
 		small := mk([]string{"a/1", "b/1"}, 2, 2, 2, 2, 2, []int{0, 1}, false, false)
 		inj := mk([]string{"a/1", "b/1", failKey}, 2, 2, 2, 2, 2, []int{0, 1}, false, false)
-		return []plan{
-			{config{"hashmap", false}, 4, small},
-			{config{"hashmap", true}, 4, small},
-			{config{"bbolt", false}, 3, small},
-			{config{"bbolt", true}, 3, small},
-			{config{"injected", false}, 3, inj},
-		}
+		// cheapest first
+		return append(append([]plan{{cfg: config{"injected", false}, depth: 3, b: inj}}, fam...),
+			plan{cfg: config{"bbolt", false}, depth: 3, b: small},
+			plan{cfg: config{"bbolt", true}, depth: 3, b: small},
+			plan{cfg: config{"hashmap", false}, depth: 4, b: small},
+			plan{cfg: config{"hashmap", true}, depth: 4, b: small},
+		)
 	}
-	big := mk([]string{"a/1", "b/1", "a/2"}, 3, 4, 3, 3, 2, []int{0, 1, 2, 3}, true, true)
+	big := mk([]string{"a/1", "b/1", "a/2"}, 3, 4, 4, 3, 2, []int{0, 1, 2, 3}, true, true)
 	small := mk([]string{"a/1", "b/1"}, 2, 2, 2, 2, 2, []int{0, 1}, false, false)
-	inj := mk([]string{"a/1", "b/1", failKey}, 3, 4, 3, 3, 2, []int{0, 1, 2, 3}, true, true)
-	// cheapest first; the last one is the largest and is the one a budget would cut
-	return []plan{
-		{config{"injected", false}, 3, inj},
-		{config{"hashmap", true}, 3, big},
-		{config{"bbolt", false}, 4, small},
-		{config{"bbolt", true}, 4, small},
-		{config{"hashmap", false}, 5, small},
-		{config{"hashmap", true}, 5, small},
-		{config{"hashmap", false}, 4, big},
+	inj := mk([]string{"a/1", "b/1", failKey}, 3, 4, 4, 3, 2, []int{0, 1, 2, 3}, true, true)
+	order3 := *order
+	orderDeep := []plan{
+		{config{"hashmap", true}, 3, &order3, "three hooks, cancel one", hookOrderSeeds()},
+		{config{"bbolt", false}, 2, &order3, "three hooks, cancel one", hookOrderSeeds()},
 	}
+	// cheapest first; the last one is the largest and is the one a budget would cut
+	return append(append(append([]plan{{cfg: config{"injected", false}, depth: 3, b: inj}}, fam...), orderDeep...),
+		plan{cfg: config{"hashmap", true}, depth: 3, b: big},
+		plan{cfg: config{"bbolt", false}, depth: 4, b: small},
+		plan{cfg: config{"bbolt", true}, depth: 4, b: small},
+		plan{cfg: config{"hashmap", false}, depth: 5, b: small},
+		plan{cfg: config{"hashmap", true}, depth: 5, b: small},
+		plan{cfg: config{"hashmap", false}, depth: 4, b: big},
+	)
 }
 
 func main() {
@@ -1377,6 +1461,7 @@ func main() {
 			"put/delete/MakeSecret/InsertValue/get through interfaces of different privileges, PushUpdate (injected database)} on keys inside/outside the subscribed prefix with values for which the where-condition holds or not and flags none/secret(/crownjewel); " +
 			"each history replayed on a fresh real database (hashmap, bbolt, runtime registry injected) and on a reference (lists of subscriptions and hooks, map of records); after every step feeds are drained, hook calls, result and raw storage compared; " +
 			"states de-duplicated on (reference state, controller's registered subscriptions and hooks, raw storage); deepest level check-only and without subscribe/registerHook as last step (nothing to observe); " +
+			"plus two dedicated families: the complete matrix flags {none,secret,crownjewel,both} x subscriber privileges {LI,L-,-I,--} x writers {LI, LI+AlwaysMakeSecret, LI+AlwaysMakeSecret+AlwaysMakeCrownjewel, PushUpdate} (depth 2 from four subscriptions), and every triple of 7 hook kinds registered on one prefix followed by cancelHook and a read or write (order of the remaining hooks); " +
 			"non-trivial = histories whose last step delivered to a feed, called a hook, or cancelled a subscription or hook")
 		c.Assume("when several hooks are registered, each sees the record returned by the previous one (matching included); the harness's replacing hooks keep key, value and flags and only mark the record")
 		c.Assume("Interface.Delete, MakeSecret and InsertValue are a get followed by a put of the modified record: get-phase and put-phase hooks both apply to them")
@@ -1422,8 +1507,15 @@ type node struct {
 
 func explore(c *vlib.Ctx, pi int, pl plan) {
 	cfg := pl.cfg
-	sds := seeds(cfg)
-	scen := fmt.Sprintf("%v depth %d keys %v queries %d privileges %d flags %d maxSubs %d maxHooks %d interfaces %d", cfg, pl.depth, pl.b.keys, pl.b.nQ, pl.b.nPriv, pl.b.nFlag, pl.b.maxSubs, pl.b.maxHooks, len(pl.b.ifaces))
+	sds := pl.seeds
+	if sds == nil {
+		sds = seeds(cfg)
+	}
+	fam := pl.family
+	if fam == "" {
+		fam = "general"
+	}
+	scen := fmt.Sprintf("[%s, %d initial states] %v depth %d keys %v queries %d privileges %d flags %d maxSubs %d maxHooks %d interfaces %d", fam, len(sds), cfg, pl.depth, pl.b.keys, pl.b.nQ, pl.b.nPriv, pl.b.nFlag, pl.b.maxSubs, pl.b.maxHooks, len(pl.b.ifaces))
 	c.Scenario(scen)
 	t0 := time.Now()
 	seen := map[string]struct{}{}
@@ -1530,12 +1622,12 @@ func explore(c *vlib.Ctx, pi int, pl plan) {
 				seen[s.key] = struct{}{}
 				next = append(next, s.n)
 				if len(seen)%997 == 0 {
-					c.Sample(map[string]any{"config": cfg.String(), "seed": sds[s.n.seed].name, "history": histString(s.n.hist), "state": s.key})
+					c.Sample(map[string]any{"family": fam, "config": cfg.String(), "seed": sds[s.n.seed].name, "history": histString(s.n.hist), "state": s.key})
 				}
 			}
 		}
 		c.Add(int64(len(next)), 0, 0)
-		fmt.Printf("[%s] depth %d: frontier %d, histories %d, new states %d (%.1fs)\n", cfg, depth, len(frontier), evals, len(next), time.Since(t0).Seconds())
+		fmt.Printf("[%s %s] depth %d: frontier %d, histories %d, new states %d (%.1fs)\n", fam, cfg, depth, len(frontier), evals, len(next), time.Since(t0).Seconds())
 		frontier = next
 	}
 	c.Extra(fmt.Sprintf("plan%d", pi), fmt.Sprintf("%s: depth completed %d, histories %d, states %d", scen, completed, total, len(seen)))
